@@ -14,6 +14,7 @@ import (
 	"strconv"
 	"strings"
 	"syscall"
+	"verif/harness/codec"
 
 	"git.defalsify.org/vise.git/db"
 
@@ -38,6 +39,25 @@ type c12case struct {
 
 func c12Case(seed uint64, key string) *c12case {
 	r := vk.CaseRNG(seed, key)
+	if strings.HasPrefix(key, "samesize/") {
+		// every save replaces the record by one of exactly the same length: a value of constant length that changes
+		// with every request, at an unchanged position
+		a := app.NewApp()
+		a.FlagCount = 1
+		a.AddNode(&app.Node{Name: "root", Template: "value {{.v}} and {{.w}}", Code: []codec.Ins{
+			{Op: codec.LOAD, S1: "v", N: 40}, {Op: codec.LOAD, S1: "w", N: 40}, {Op: codec.MAP, S1: "v"}, {Op: codec.MAP, S1: "w"}, {Op: codec.MOUT, S1: "again", S2: "1"}, {Op: codec.HALT},
+			{Op: codec.INCMP, S1: "rel", S2: "1"}}})
+		a.AddNode(&app.Node{Name: "rel", Template: "reload", Code: []codec.Ins{{Op: codec.RELOAD, S1: "v"}, {Op: codec.RELOAD, S1: "w"}, {Op: codec.MOVE, S1: "_"}}})
+		a.AddNode(&app.Node{Name: "_catch", Template: "catch page", Code: []codec.Ins{{Op: codec.HALT}, {Op: codec.INCMP, S1: "_", S2: "*"}}})
+		a.Funcs["v"] = &app.FuncSpec{Sym: "v", Kind: "len", Lens: []int{r.Range(8, 30)}}
+		a.Funcs["w"] = &app.FuncSpec{Sym: "w", Kind: "len", Lens: []int{r.Range(8, 30)}}
+		a.Finalize()
+		hist := []string{""}
+		for k := 0; k < r.Range(3, 6); k++ {
+			hist = append(hist, "1")
+		}
+		return &c12case{a, app.Config{FlagCount: 1, SessionId: "victim", Root: "root"}, hist}
+	}
 	p := specProfile(r)
 	p.Terminate = false
 	p.LoadErrors = false
@@ -106,9 +126,11 @@ type c12sys struct {
 	Path    string // file concerned (from openat / rename / fd table)
 	Payload []byte // write payload
 	Fd      string
+	Offset  int64 // pwrite64: file offset
 }
 
 var reStrace = regexp.MustCompile(`^(\d+)\s+([a-z0-9_]+)\((.*)$`)
+var rePwriteOff = regexp.MustCompile(`,\s*(\d+)\)\s*=`)
 var reHexStr = regexp.MustCompile(`"((?:\\x[0-9a-f]{2})*)"`)
 
 func unhex(s string) []byte {
@@ -185,8 +207,13 @@ func parseTrace(path string, dir string) (calls []c12sys, sawBegin, sawEnd bool,
 			}
 			s.Fd = fd
 			s.Path = fds[fd]
-			if name == "write" && len(strs) > 0 {
+			if (name == "write" || name == "pwrite64") && len(strs) > 0 {
 				s.Payload = unhex(strs[0][1])
+			}
+			if name == "pwrite64" {
+				if m := rePwriteOff.FindStringSubmatch(rest); m != nil {
+					s.Offset, _ = strconv.ParseInt(m[1], 10, 64)
+				}
 			}
 		case "rename", "renameat", "renameat2", "link", "linkat", "unlink", "unlinkat", "mkdir", "mkdirat", "truncate", "symlinkat", "fchmodat":
 			for _, x := range strs {
@@ -282,11 +309,15 @@ func runC12(c *vk.Ctx) {
 		}
 	}()
 	n := c.N(12, 300)
-	for i := 0; i < n; i++ {
+	nsame := c.N(3, 40)
+	for i := 0; i < n+nsame; i++ {
 		if !c.Mine(i) {
 			continue
 		}
 		key := fmt.Sprintf("pair/%d", i)
+		if i >= n {
+			key = fmt.Sprintf("samesize/%d", i-n)
+		}
 		if !c.Want(key) {
 			continue
 		}
@@ -440,6 +471,9 @@ func runC12(c *vk.Ctx) {
 				} else {
 					got.out = c12Serve(cs, dir, callsBefore, next)
 				}
+				if os.Getenv("VERIF_C12_DEBUG") != "" {
+					fmt.Fprintf(os.Stderr, "C12DEBUG %s: %s err=%q st=%+v ca=%+v\n", what, state, got.err, got.st, got.ca)
+				}
 				c.EvalN(1, 1)
 				c.Count("crash_states_checked", 1)
 				c.Count("recovered_"+state, 1)
@@ -536,6 +570,29 @@ func runC12(c *vk.Ctx) {
 						f.Close()
 						c.Count("torn_write_states", 1)
 						verify(dj, fmt.Sprintf("inside syscall #%d write(%s) after %d of %d bytes", ci, filepath.Base(s.Path), j, nb))
+						os.RemoveAll(dj)
+					}
+				}
+				if s.Name == "pwrite64" && len(s.Payload) > 1 {
+					// death inside a positioned write: the first j bytes have replaced what was at the offset
+					nb := len(s.Payload)
+					step := 1
+					if nb > 400 {
+						step = nb / 200
+					}
+					for j := 1; j < nb; j += step {
+						dj := filepath.Join(tmp, fmt.Sprintf("k%d-p%d", ci, j))
+						copyDir(di, dj)
+						rel, _ := filepath.Rel(dt, s.Path)
+						f, err := os.OpenFile(filepath.Join(dj, rel), os.O_WRONLY, 0600)
+						if err != nil {
+							os.RemoveAll(dj)
+							continue
+						}
+						f.WriteAt(s.Payload[:j], s.Offset)
+						f.Close()
+						c.Count("torn_positioned_write_states", 1)
+						verify(dj, fmt.Sprintf("inside syscall #%d write(%s) at offset %d after %d of %d bytes", ci, filepath.Base(s.Path), s.Offset, j, nb))
 						os.RemoveAll(dj)
 					}
 				}
